@@ -12,13 +12,16 @@ PID = "C13"
 REAL = {"A": "alpha", "B": "beta", "C": "gamma", "dsf": "diff-so-fancy", "dh": "diff-highlight", "nav": "navigate",
         "sbs": "side-by-side", "ln": "line-numbers"}
 VAL = {"cli": "21", "gcp": "22", "main": "23", "c_A": "24", "c_B": "25", "c_C": "26", "c_dsf": "27", "c_nav": "28"}
+# a second option of another type in the code (Option<String>), which no built-in feature sets: width
+VALW = {k: "1" + v for k, v in VAL.items()}
 
 
 def concretise(p, workdir, idx):
     """placement -> (argv, env). The gitconfig is generated into workdir."""
+    OPT, VAL = ("minus-style", globals()["VAL"]) if p.get("optB", True) else ("width", VALW)
     cfg = ["[delta]"]
     if p["main"]:
-        cfg.append(f"    minus-style = {VAL['main']}")
+        cfg.append(f"    {OPT} = {VAL['main']}")
     if p["mainF"]:
         cfg.append("    features = " + " ".join(REAL[f] for f in p["mainF"]))
     for f in p["flagsMain"]:
@@ -26,7 +29,7 @@ def concretise(p, workdir, idx):
     for f in ("A", "B", "C", "dsf", "nav"):
         sec = []
         if f in p["custom"]:
-            sec.append(f"    minus-style = {VAL['c_' + f]}")
+            sec.append(f"    {OPT} = {VAL['c_' + f]}")
         if f == "A" and p["childA"]:
             sec.append("    features = " + " ".join(REAL[c] for c in p["childA"]))
         if sec:
@@ -38,13 +41,13 @@ def concretise(p, workdir, idx):
     argv = (["--no-gitconfig"] + (["--config", path] if p.get("cfgFile") else [])) if p["noGit"] else ["--config", path]
     env = {}
     if p["cli"]:
-        argv += ["--minus-style", VAL["cli"]]
+        argv += ["--" + OPT, VAL["cli"]]
     if p["hasCliF"]:
         argv += ["--features", " ".join(REAL[f] for f in p["cliF"])]
     for f in p["flagsCli"]:
         argv += ["--" + REAL[f]]
     if p["gcp"]:
-        env["GIT_CONFIG_PARAMETERS"] = f"'delta.minus-style={VAL['gcp']}'"
+        env["GIT_CONFIG_PARAMETERS"] = f"'delta.{OPT}={VAL['gcp']}'"
     if p["envMode"] != "none":
         env["DELTA_FEATURES"] = ("+" if p["envMode"] == "plus" else "") + " ".join(REAL[f] for f in p["envF"])
     return argv + ["--show-config"], env, path
@@ -58,9 +61,9 @@ def shown_ln(out):
     return None
 
 
-def shown_value(out):
+def shown_value(out, opt="minus-style"):
     for line in lexer.strip_ansi(out).decode("utf-8", "replace").split("\n"):
-        m = re.match(r"^\s*minus-style\s*=\s?(.*)$", line)
+        m = re.match(r"^\s*" + opt + r"\s*=\s?(.*)$", line)
         if m:
             return m.group(1).strip()
     return None
@@ -94,6 +97,7 @@ def run(tier):
     strata = [
         [p for p in placements if (dup(p["cliF"]) or dup(p["mainF"])) and not p["noGit"]],
         [p for p in placements if "nav" in p["custom"]],
+        [p for p in placements if not p["optB"]],
         [p for p in placements if p["noGit"] and (p["gcp"] or p["main"] or p["custom"])],
         [p for p in placements if "sbs" in p["cliF"] + p["mainF"] + p["envF"] + p["childA"] + p["flagsCli"] + p["flagsMain"] or "ln" in p["cliF"]],
     ]
@@ -115,6 +119,8 @@ def run(tier):
     names.setdefault(shown_value(r.out), "default")
     if len(set(names.values())) != len(VAL) + 3:
         raise core.ToolError(f"calibration of --show-config values is ambiguous: {names}")
+    namesw = {v: k for k, v in VALW.items()}
+    namesw[shown_value(core.run_delta(["--no-gitconfig", "--show-config"], b"").out, "width")] = "default"
 
     def one(ip):
         i, p = ip
@@ -123,7 +129,8 @@ def run(tier):
         vals, lns = [], []
         for _ in range(reps):
             r = core.run_delta(argv, b"", env=env)
-            vals.append(names.get(shown_value(r.out), "unknown:" + str(shown_value(r.out))) if r.code == 0 else f"exit:{r.code}")
+            opt, nm = ("minus-style", names) if p.get("optB", True) else ("width", namesw)
+            vals.append(nm.get(shown_value(r.out, opt), "unknown:" + str(shown_value(r.out, opt))) if r.code == 0 else f"exit:{r.code}")
             lns.append(bool(shown_ln(r.out)))
         os.unlink(path)
         return vals, lns
